@@ -16,7 +16,7 @@ class Gen:
         self.r = random.Random(seed)
         self.profile = profile
         r = self.r
-        self.pi_pool = [r.randrange(65536) for _ in range(3)] + [0x0ABC, 0x1234, 0xF212]
+        self.pi_pool = [r.randrange(65536) for _ in range(3)] + [0x0ABC, 0x1234, 0xF212] + [r.choice([0x0000, 0x00FF, 0x54FF, 0xFF00, 0xFFFF, 0x0001, 0x8000, 0x7FFF])]
         self.pty_pool = [r.randrange(32) for _ in range(3)]
         self.ecc_pool = [0xE0, 0xE2, 0xA0, 0xD3, 0xF1, r.randrange(256), r.randrange(256)]
         self.af_pool = [0, 1, 2, 100, 204, 205, 224, 225, 249, 250, 251, 255, r.randrange(256), r.randrange(256)]
